@@ -281,17 +281,22 @@ class RFCOMM_Frame:
             length >>= 1
             value = data[2:]
         else:
-            length = (data[3] << 7) & (length >> 1)
+            # 2-byte length indicator
+            length = (data[2] << 7) | (length >> 1)
             value = data[3 : 3 + length]
 
         return (mcc_type, c_r, value)
 
     @staticmethod
     def make_mcc(mcc_type: int, c_r: int, data: bytes) -> bytes:
-        return (
-            bytes([(mcc_type << 2 | c_r << 1 | 1) & 0xFF, (len(data) & 0x7F) << 1 | 1])
-            + data
-        )
+        length = len(data)
+        if length > 0x7F:
+            # 2-byte length indicator
+            length_bytes = bytes([(length & 0x7F) << 1, (length >> 7) & 0xFF])
+        else:
+            # 1-byte length indicator
+            length_bytes = bytes([(length << 1) | 1])
+        return bytes([(mcc_type << 2 | c_r << 1 | 1) & 0xFF]) + length_bytes + data
 
     @staticmethod
     def sabm(c_r: int, dlci: int):
